@@ -26,6 +26,8 @@ import (
 	sdk "github.com/cosmos/cosmos-sdk/types"
 	authtypes "github.com/cosmos/cosmos-sdk/x/auth/types"
 	banktypes "github.com/cosmos/cosmos-sdk/x/bank/types"
+	govtypes "github.com/cosmos/cosmos-sdk/x/gov/types"
+	govv1 "github.com/cosmos/cosmos-sdk/x/gov/types/v1"
 	slashingtypes "github.com/cosmos/cosmos-sdk/x/slashing/types"
 	stakingtypes "github.com/cosmos/cosmos-sdk/x/staking/types"
 	"github.com/ethereum/go-ethereum/common"
@@ -106,6 +108,7 @@ type Config struct {
 	NumAVS               int          // funded accounts that act as AVS / task contracts (they call the AVS precompile themselves)
 	EVM                  *EVMCfg      // nil: default EVM / fee market genesis, no contracts
 	Slashing             *SlashingCfg // nil: default x/slashing parameters (window of 100 blocks)
+	Gov                  *GovCfg      `json:",omitempty"` // nil: default x/gov parameters (deposit in "stake", two days)
 	GenesisUndelegations []delegationtypes.UndelegationRecord
 }
 
@@ -116,6 +119,14 @@ type SlashingCfg struct {
 	MinSigned        string // decimal fraction of the window that must be signed
 	JailSeconds      int64  // downtime jail duration
 	FractionDowntime string // slash fraction for downtime
+}
+
+// GovCfg sets the x/gov parameters so that a proposal can be funded in the native token and
+// reaches the end of its voting period within a short history.
+type GovCfg struct {
+	MinDeposit     int64 // in the native base denomination
+	DepositSeconds int64
+	VotingSeconds  int64
 }
 
 // EVMCfg configures the EVM side of a world (property C19).
@@ -290,6 +301,13 @@ func BuildWorld(cfg Config) (*World, error) {
 		sg.Params.DowntimeJailDuration = time.Duration(cfg.Slashing.JailSeconds) * time.Second
 		sg.Params.SlashFractionDowntime = math.LegacyMustNewDecFromStr(cfg.Slashing.FractionDowntime)
 		gs[slashingtypes.ModuleName] = cdc.MustMarshalJSON(sg)
+	}
+	if cfg.Gov != nil {
+		gg := govv1.DefaultGenesisState()
+		gg.Params.MinDeposit = sdk.NewCoins(sdk.NewCoin(utils.BaseDenom, math.NewInt(cfg.Gov.MinDeposit)))
+		dp, vp := time.Duration(cfg.Gov.DepositSeconds)*time.Second, time.Duration(cfg.Gov.VotingSeconds)*time.Second
+		gg.Params.MaxDepositPeriod, gg.Params.VotingPeriod = &dp, &vp
+		gs[govtypes.ModuleName] = cdc.MustMarshalJSON(gg)
 	}
 	gs[authtypes.ModuleName] = cdc.MustMarshalJSON(authtypes.NewGenesisState(authtypes.DefaultParams(), genAccs))
 	gs[banktypes.ModuleName] = cdc.MustMarshalJSON(banktypes.NewGenesisState(
